@@ -291,6 +291,12 @@ def gres (d : DState) (r : Except G.Err G.St) : DState × String :=
   | .ok st => ({ d with g := st }, "ok")
   | .error e => (d, "gerr " ++ e.str)
 
+/-- as `gres`, the error class left out (which gfapy.Error a refused merge raises is the oracle's business) -/
+def gresR (d : DState) (r : Except G.Err G.St) : DState × String :=
+  match r with
+  | .ok st => ({ d with g := st }, "ok")
+  | .error _ => (d, "refused")
+
 /-- stateful commands (the model Gfa) -/
 def step (d : DState) (cmd : String) (args : List (List Char)) : DState × String :=
   match cmd, args with
@@ -326,11 +332,11 @@ def step (d : DState) (cmd : String) (args : List (List Char)) : DState × Strin
      | none => (d, "bad-op"))
   | "g.merge", [path, vl] =>
     (match (splitOnC ',' path).mapM (fun e => G.parseEnd (str e)), natOf? vl with
-     | some p, some k => gres d (G.mergePath d.g p k)
+     | some p, some k => gresR d (G.mergePath d.g p k)
      | _, _ => (d, "bad-op"))
   | "g.mergeall", [vl] =>
     (match natOf? vl with
-     | some k => gres d (G.mergeAll d.g k)
+     | some k => gresR d (G.mergeAll d.g k)
      | none => (d, "bad-op"))
   | "g.lpaths", [] => (d, "ok " ++ ";".intercalate ((G.linearPaths d.g).map G.showPath))
   | "g.lpath", [s] =>
